@@ -34,6 +34,18 @@ func normCond(cond ssa.Value, pol bool) string {
 		pol = !pol
 	}
 	if b, ok := cond.(*ssa.BinOp); ok {
+		// `x == true`, `x != false`, `x == false`, `x != true` (as a `switch x { case true: … }` compiles) are x / !x
+		if b.Op == token.EQL || b.Op == token.NEQ {
+			for _, pr := range [][2]ssa.Value{{b.X, b.Y}, {b.Y, b.X}} {
+				if k, isK := pr[1].(*ssa.Const); isK && k.Value != nil && k.Value.Kind() == constant.Bool {
+					same := constant.BoolVal(k.Value) == (b.Op == token.EQL)
+					if same {
+						return normCond(pr[0], pol)
+					}
+					return normCond(pr[0], !pol)
+				}
+			}
+		}
 		if _, isCmp := negOp[b.Op]; isCmp {
 			op := b.Op
 			if !pol {
